@@ -488,3 +488,57 @@ Example C14_ex_helpers :
   option_map (fun s => map r_mask (s_rows s)) (match src_screen_combine (0%Z, ex_screen) (1%Z, ex_screen) with Ok s => Some s | Err _ => None end)
   = Some [true; false; false; false; true; false; true; false; false; false; true; false].
 Proof. vm_compute. repeat split. Qed.
+
+(* ---- Screen.concat and Screen.single_treatment_effects (data.py), re-translated on every run (Generated/SrcPlates.v,
+   configurations L10B_SCREEN_CONCAT / L10B_SCREEN_STE; proofs Proofs/C14SourceLeftovers.v) ---- *)
+From Batchie Require Generated.SrcPlates Proofs.C14SourceLeftovers.
+
+(* Screen.concat (the two length tests, screens[0], the loop `result = result.combine(screen)` over screens[1:] through the
+   translated Screen.combine): an empty list is refused, ONE screen is returned as the same object, otherwise a new object
+   (identity new_tag, any value) holding the screens combined from the left *)
+Theorem C14_model_is_source_screen_concat : forall (new_tag : Z) (ss : list pyscreen),
+  SrcPlates.src_screen_concat new_tag ss
+  = match ss with
+    | [] => Err 24%Z
+    | [s] => Ok s
+    | s :: r => dor c <- screen_concat_from (snd s) (map snd r); Ok (new_tag, c)
+    end.
+Proof. exact C14SourceLeftovers.src_screen_concat_is_model. Qed.
+Print Assumptions C14_model_is_source_screen_concat.
+
+(* on the contents, whatever the identities: the model's screen_concat *)
+Theorem C14_model_is_source_screen_concat_contents : forall (new_tag : Z) (ss : list pyscreen),
+  (dor o <- SrcPlates.src_screen_concat new_tag ss; Ok (snd o)) = screen_concat (map snd ss).
+Proof. exact C14SourceLeftovers.src_screen_concat_contents. Qed.
+Print Assumptions C14_model_is_source_screen_concat_contents.
+
+(* Screen.single_treatment_effects (the try / except KeyError / return None): for ANY effect-array function and KeyError tag,
+   the effect array of the screen's sample ids, treatment ids and observations; None exactly when its construction raises
+   KeyError; every other exception passes *)
+Theorem C14_model_is_source_screen_single_treatment_effects :
+  forall (E : Type) (key_error : Z) (effect_array : list Z -> list (list Z) -> list Z -> result (list E)) (self : pyscreen),
+  SrcPlates.src_screen_single_treatment_effects E key_error effect_array self
+  = screen_single_effects key_error effect_array (snd self).
+Proof. exact C14SourceLeftovers.src_screen_single_effects_is_model. Qed.
+Print Assumptions C14_model_is_source_screen_single_treatment_effects.
+
+(* consistency: C14_model_is_source_single_treatment_effects took the parent's property as a primitive VALUE; with the translated
+   Screen property in its place a view's property is the row selection of the parent's array (None propagates) *)
+Theorem C14_source_view_single_treatment_effects_of_parent :
+  forall (E : Type) (key_error : Z) (effect_array : list Z -> list (list Z) -> list Z -> result (list E)) (v : view),
+  (dor ste <- SrcPlates.src_screen_single_treatment_effects E key_error effect_array (view_screen v);
+   src_view_single_treatment_effects E v ste)
+  = (dor ste <- screen_single_effects key_error effect_array (v_parent v); Ok (view_single_effects v ste)).
+Proof. exact C14SourceLeftovers.src_view_single_effects_of_parent. Qed.
+Print Assumptions C14_source_view_single_treatment_effects_of_parent.
+
+Example C14_ex_screen_concat :
+  (exists s, SrcPlates.src_screen_concat 9%Z [(0%Z, ex_screen); (1%Z, ex_screen); (2%Z, ex_screen)] = Ok (9%Z, s) /\ length (s_rows s) = 18) /\
+  SrcPlates.src_screen_concat 9%Z [(5%Z, ex_screen)] = Ok (5%Z, ex_screen) /\
+  SrcPlates.src_screen_concat 9%Z [] = Err 24%Z.
+Proof. split; [eexists; vm_compute; split; reflexivity | split; vm_compute; reflexivity]. Qed.
+Example C14_ex_screen_single_effects :
+  SrcPlates.src_screen_single_treatment_effects Z 5%Z (fun _ _ _ => Err 5%Z) (0%Z, ex_screen) = Ok None /\
+  SrcPlates.src_screen_single_treatment_effects Z 5%Z (fun _ _ _ => Err 4%Z) (0%Z, ex_screen) = Err 4%Z /\
+  SrcPlates.src_screen_single_treatment_effects Z 5%Z (fun s _ _ => Ok s) (0%Z, ex_screen) = Ok (Some (s_sids ex_screen)).
+Proof. vm_compute. repeat split; reflexivity. Qed.
